@@ -19,3 +19,4 @@ def check(repo, rep, tier):
     rep.run(rx.rule_no_cached_binding_state, em, rep, 'C02.B6')
     from .. import rules_state as rs
     rep.run(rs.rule_atoms_unify_by_name, em, rep, 'C02.A2')
+    rep.run(rb.rule_success_only_against_own_kind, em, rep, 'C02.K1')
